@@ -135,6 +135,22 @@ CHECKS = {
               "integer digit lost the decimal point / overflowed the field, fix: cec0786)."),
         technique="TLA+ grammar DFA + MaxSig table (TLC trace validation of every formatted field) + exhaustive card replay",
     ),
+    "C13": dict(
+        cat="model_checking",
+        text=("specs/BulkLists.tla enumerates id lists by run structure (every gap pattern up to 10 ids, thorough 13, x 3 start "
+              "magnitudes), table lengths and DMIG matrices up to 3x3 over value ids x column-index kind (forms 1/2/6/9), checks "
+              "Expand(ThruItems(ids)) = ids and Rebuild(Entries(M, form)) = M, and exports every case. Each is written by the real "
+              "writer and read by the matching reader: SPOINT with THRU, CSUPER, EXTRN (id/DOF pairs, expanded and not), case-control "
+              "SET at three wrap widths, TABLED1 in both field widths for 1..N points (data-line count from the spec), DMIG for four "
+              "dtypes (types 1-4; entry coordinates on the cards must equal the spec's Entries, e.g. lower triangle only for form 6), "
+              "GRID and CORD2x sweeps. The written text is also parsed by a neutral fixed-column cell splitter so that a compensating "
+              "writer+reader pair of bugs is still seen."),
+        ref="4/C13",
+        note=("Trusted: TLC, the neutral cell splitter. Values to the precision of the written format. uset2bulk/bulk2uset is not "
+              "exercised (its own repository test already fails on this numpy). A genuine defect was repaired (wttabled1 with fewer "
+              "points than one line, fix: 3f60caa)."),
+        technique="TLA+ enumeration of list/table/matrix shapes with declarative content laws (TLC) + write->read replay and neutral text parse",
+    ),
 }
 
 NOT_YET = {}
